@@ -147,6 +147,7 @@ pub fn market_session<const A: usize, const L: usize>(cfg: &MarketCfg, cs: &mut 
     cs.per_assets[A] += 1;
     let mut traded_assets = vec![false; A];
     let mut shared_ids = false;
+    let mut mixed_flags = false;
 
     let price = |rng: &mut Sm, a: usize| -> u32 {
         let c = centers[a];
@@ -271,6 +272,7 @@ pub fn market_session<const A: usize, const L: usize>(cfg: &MarketCfg, cs: &mut 
                 }
             } else if r < 93 {
                 trading = if rng.chance(0.85) { !trading } else { trading };
+                mixed_flags = false;
                 cs.toggles += 1;
                 log.push(format!("set trading {}", trading));
                 let before: Vec<_> = (0..A).map(|k| m.get_order_book(k).obs()).collect();
@@ -299,6 +301,45 @@ pub fn market_session<const A: usize, const L: usize>(cfg: &MarketCfg, cs: &mut 
                             return mfail(i, "flag", "toggle_changed_state", format!("asset {}", k), &log);
                         }
                     }
+                }
+            } else if r < 94 && (on(MK_FLAG) || on(MK_ASSET)) {
+                // toggle ONE asset's book directly, then (usually) the whole market: the market-level
+                // switch must reach every asset whatever the individual flags were
+                let on_off = rng.chance(0.5);
+                log.push(format!("asset {} book-level set trading {}", a, on_off));
+                if on_off {
+                    m.get_order_book_mut(a).enable_trading();
+                    sh[a].enable_trading();
+                } else {
+                    m.get_order_book_mut(a).disable_trading();
+                    sh[a].disable_trading();
+                }
+                if rng.chance(0.8) {
+                    trading = if rng.chance(0.5) { on_off } else { !on_off };
+                    log.push(format!("set trading {}", trading));
+                    if trading {
+                        m.enable_trading();
+                    } else {
+                        m.disable_trading();
+                    }
+                    for b in sh.iter_mut() {
+                        if trading {
+                            b.enable_trading()
+                        } else {
+                            b.disable_trading()
+                        }
+                    }
+                    cs.toggles += 1;
+                    for k in 0..A {
+                        if let Some(f) = m.get_order_book(k).trading_flag() {
+                            if f != trading {
+                                return mfail(i, "flag", "toggle_not_fanned_out", format!("asset {} has trading={} after the market was set to {}", k, f, trading), &log);
+                            }
+                        }
+                    }
+                } else {
+                    // flags now differ between assets: the per-market `trading` notion no longer applies
+                    mixed_flags = true;
                 }
             } else if r < 95 {
                 log.push("reset trade vols".into());
@@ -353,12 +394,12 @@ pub fn market_session<const A: usize, const L: usize>(cfg: &MarketCfg, cs: &mut 
             cs.trades += n_new as u64;
             if n_new > 0 {
                 traded_assets[k] = true;
-                if on(MK_FLAG) && !trading && r < 88 {
+                if on(MK_FLAG) && !trading && !mixed_flags && r < 88 {
                     return mfail(i, "flag", "trade_while_disabled", format!("asset {}", k), &log);
                 }
             }
         }
-        if on(MK_FLAG) && !trading {
+        if on(MK_FLAG) && !trading && !mixed_flags {
             // market orders are rejected
             if let Some(o) = sh[a].get_orders().last() {
                 if r < 45 && o.arr_time == t && (o.price == PMAX && matches!(o.side, bourse_book::types::Side::Bid) || o.price == 0) && o.status != bourse_book::types::Status::New {
